@@ -25,6 +25,9 @@ func AllRules() map[string]*Rule {
 		ruleConfGuard(),
 		ruleConfFollower(),
 		ruleVoteRequests(),
+		ruleInstallSnapshot(),
+		ruleSnapLabel(),
+		ruleSender(),
 	)
 	all = append(all, extraRules()...)
 	for _, r := range all {
